@@ -17,6 +17,7 @@ import (
 	"strings"
 	"syscall"
 	"time"
+	"unicode/utf8"
 )
 
 const (
@@ -496,6 +497,13 @@ type ResultEvidence struct {
 // validateResultPath ensures path is relative, within project root, and exists.
 // Returns the cleaned relative path.
 func validateResultPath(repoDir, relPath string) (string, error) {
+	// The path is recorded as JSON text, which can only hold valid UTF-8: any
+	// other byte would be replaced on the way into the log, and the recorded
+	// path (and the file_url derived from it) would name a different file than
+	// the one that was hashed.
+	if !utf8.ValidString(relPath) {
+		return "", fmt.Errorf("result path is not valid UTF-8: %q", relPath)
+	}
 	relPath = filepath.Clean(relPath)
 
 	// Must be relative (no leading /)
